@@ -9,8 +9,11 @@ import (
 	"go/ast"
 	"go/token"
 	"go/types"
+	"regexp"
 	"strings"
 )
+
+var bindRe = regexp.MustCompile(`\| ([A-Za-z_0-9']+) :: ([A-Za-z_0-9']+) =>|let '\(([^)]*)\) :=|\(([A-Za-z_0-9']+) : `)
 
 func (c *fn) block(list []ast.Stmt, k kont) string {
 	if len(list) == 0 {
@@ -70,6 +73,10 @@ func (c *fn) bind(e cx, hint string, f func(v string) string) string {
 // several places: k becomes a let-bound function of the variables assigned in
 // the statement when it is used more than once, and is inlined otherwise.
 func (c *fn) withJoin(n ast.Node, assigned []types.Object, k kont, body func(k2 kont) string) string {
+	return c.withJoinF(n, assigned, k, false, body)
+}
+
+func (c *fn) withJoinF(n ast.Node, assigned []types.Object, k kont, force bool, body func(k2 kont) string) string {
 	count := 0
 	func() {
 		saved := c.saveViews()
@@ -85,9 +92,18 @@ func (c *fn) withJoin(n ast.Node, assigned []types.Object, k kont, body func(k2 
 			namesSaved[k] = v
 		}
 		defer func() { c.used = usedSaved; c.names = namesSaved }()
-		body(func() string { count++; return "" })
+		nl, nlo, nlf := c.nloops, len(c.localOrder), len(c.lifted)
+		defer func() {
+			for _, x := range c.localOrder[nlo:] {
+				delete(c.localTypes, x)
+			}
+			c.localOrder, c.nloops, c.lifted = c.localOrder[:nlo], nl, c.lifted[:nlf]
+		}()
+		if !force {
+			body(func() string { count++; return "" })
+		}
 	}()
-	if count <= 1 {
+	if count <= 1 && !force {
 		return body(k)
 	}
 	name := c.fresh("k")
@@ -106,9 +122,26 @@ func (c *fn) withJoin(n ast.Node, assigned []types.Object, k kont, body func(k2 
 		}
 		return k()
 	})
+	var ptys []string
+	for _, o := range assigned {
+		ptys = append(ptys, c.varType(o))
+	}
+	if len(ptys) == 0 {
+		ptys = []string{"unit"}
+	}
+	c.regLocal(name, "("+strings.Join(append(ptys, c.retType), " -> ")+")")
 	call := "(" + name + " " + strings.Join(args, " ") + ")"
+	if force {
+		return "let " + name + " := (fun " + strings.Join(params, " ") + " => " + kbody + ") in " + body(func() string { return call })
+	}
+	nl, nlo, nlf := c.nloops, len(c.localOrder), len(c.lifted)
+	nf := c.nfresh
 	inner := body(func() string { return call })
 	if strings.Count(inner, call) <= 1 {
+		for _, x := range c.localOrder[nlo:] {
+			delete(c.localTypes, x)
+		}
+		c.localOrder, c.nloops, c.lifted, c.nfresh = c.localOrder[:nlo], nl, c.lifted[:nlf], nf
 		// the uses collapsed (e.g. branches that only log): inline after all
 		return body(k)
 	}
@@ -267,6 +300,7 @@ func (c *fn) ifStmt(s *ast.IfStmt, k kont) string {
 			}
 			if o, isEq, ok := c.nilTest(s.Cond); ok {
 				v := c.fresh(c.nameOf(o) + "_v")
+				c.regLocal(v, c.g.typ(resolve(o.Type(), c.sub).(*types.Pointer).Elem(), c.sub))
 				nilBranch, someBranch := ast.Stmt(s.Body), elseSt
 				if !isEq {
 					nilBranch, someBranch = elseSt, ast.Stmt(s.Body)
@@ -384,13 +418,20 @@ func isSimpleTerm(s string) bool {
 	return s != ""
 }
 
-// loop builds the local fix over a list. elemT is the Coq type of the list
-// elements; bindElem receives the element variable and wraps the body term.
+// loop builds the loop over a list as a top-level Fixpoint (lambda-lifted: the
+// local variables it mentions become parameters) and returns the call.
+// elemT is the Coq type of the list elements; bindElem receives the element
+// variable and wraps the body term. A loop nested in another loop receives
+// what follows it as a continuation parameter.
 func (c *fn) loop(n ast.Node, list cx, elemT string, withIdx bool, bindElem func(x, idx string, body func() string) string, body *ast.BlockStmt, k kont) string {
 	carried := c.assignedIn(n)
-	return c.withJoin(n, carried, k, func(kAfter kont) string {
+	nested := c.loopDepth > 0
+	return c.withJoinF(n, carried, k, nested, func(kAfter kont) string {
 		return c.bind(list, "l", func(lv string) string {
-			name := c.fresh("loop")
+			snapshot := len(c.localOrder)
+			c.nloops++
+			id := c.nloops
+			rec := fmt.Sprintf("@REC%d@", id)
 			l := c.fresh("l")
 			x := c.fresh("x")
 			idx := ""
@@ -398,22 +439,27 @@ func (c *fn) loop(n ast.Node, list cx, elemT string, withIdx bool, bindElem func
 				idx = c.fresh("i")
 			}
 			var params, args, next []string
+			own := map[string]bool{l: true, l + "'": true, x: true}
 			params = append(params, fmt.Sprintf("(%s : list %s)", l, elemT))
 			if withIdx {
 				params = append(params, fmt.Sprintf("(%s : Z)", idx))
 				next = append(next, "("+idx+" + 1)")
+				own[idx] = true
 			}
 			for _, o := range carried {
 				params = append(params, fmt.Sprintf("(%s : %s)", c.nameOf(o), c.varType(o)))
 				args = append(args, c.nameOf(o))
+				own[c.nameOf(o)] = true
 			}
 			inner := c.scoped(func() string {
 				for _, o := range carried {
 					delete(c.views, o)
 				}
+				c.loopDepth++
+				defer func() { c.loopDepth-- }()
 				nilCase := kAfter()
 				cont := func() string {
-					return "(" + strings.Join(append(append([]string{name, l + "'"}, next...), args...), " ") + ")"
+					return "(" + strings.Join(append(append([]string{rec, l + "'"}, next...), args...), " ") + ")"
 				}
 				consCase := c.scoped(func() string {
 					c.breakK = append(c.breakK, kAfter)
@@ -422,13 +468,131 @@ func (c *fn) loop(n ast.Node, list cx, elemT string, withIdx bool, bindElem func
 				})
 				return "match " + l + " with | [] => " + nilCase + " | " + x + " :: " + l + "' => " + consCase + " end"
 			})
+			// the free local names of the body become parameters
+			var free, freeParams []string
+			seen := map[string]bool{}
+			for _, tok := range coqIdents(inner) {
+				if seen[tok] || own[tok] {
+					continue
+				}
+				seen[tok] = true
+				ty, ok := c.localTypes[tok]
+				if !ok {
+					continue
+				}
+				external := false
+				if o, isVar := c.nameObj[tok]; isVar {
+					external = o.Pos() < n.Pos()
+				} else {
+					for _, nm := range c.localOrder[:snapshot] {
+						if nm == tok {
+							external = true
+						}
+					}
+				}
+				if external {
+					free = append(free, tok)
+					freeParams = append(freeParams, fmt.Sprintf("(%s : %s)", tok, ty))
+				}
+			}
+			fname := fmt.Sprintf("%s_loop%d", c.fi.name, id)
+			if owner, taken := c.g.names[fname]; taken && owner != "loop:"+c.fi.name {
+				c.fail(n, "name %s is taken", fname)
+			}
+			c.g.names[fname] = "loop:" + c.fi.name
+			head := strings.Join(append([]string{fname}, free...), " ")
+			inner = strings.ReplaceAll(inner, rec, head)
+			if strings.Contains(inner, "@REC") {
+				c.fail(n, "internal: a loop body refers to the recursion of an enclosing loop")
+			}
+			c.checkClosed(n, inner, append(append([]string{}, free...), keys(own)...))
+			def := fmt.Sprintf("(* loop %d of %s  [%s] *)\nFixpoint %s %s {struct %s} : %s :=\n  %s.",
+				id, cmt(c.fi.label), c.g.L.pos(n.Pos(), c.pkg), fname, strings.Join(append(freeParams, params...), " "), l, c.retType, indentTerm(inner))
+			c.lifted = append(c.lifted, def)
 			init := []string{lv}
 			if withIdx {
 				init = append(init, "0")
 			}
-			return "((fix " + name + " " + strings.Join(params, " ") + " {struct " + l + "} : " + c.retType + " := " + inner + ") " + strings.Join(append(init, args...), " ") + ")"
+			return "(" + strings.Join(append(append([]string{head}, init...), args...), " ") + ")"
 		})
 	})
+}
+
+func keys(m map[string]bool) []string {
+	var out []string
+	for k := range m {
+		out = append(out, k)
+	}
+	return out
+}
+
+// coqIdents lists the identifier tokens of a generated term (string literals
+// and comments skipped), in order of occurrence.
+func coqIdents(s string) []string {
+	var out []string
+	i := 0
+	for i < len(s) {
+		ch := s[i]
+		switch {
+		case ch == '"':
+			i++
+			for i < len(s) {
+				if s[i] == '"' {
+					if i+1 < len(s) && s[i+1] == '"' {
+						i += 2
+						continue
+					}
+					break
+				}
+				i++
+			}
+			i++
+		case ch == '(' && i+1 < len(s) && s[i+1] == '*':
+			j := strings.Index(s[i:], "*)")
+			if j < 0 {
+				return out
+			}
+			i += j + 2
+		case ch == '_' || ch >= 'a' && ch <= 'z' || ch >= 'A' && ch <= 'Z':
+			j := i
+			for j < len(s) && (s[j] == '_' || s[j] == '\'' || s[j] == '.' || s[j] >= 'a' && s[j] <= 'z' || s[j] >= 'A' && s[j] <= 'Z' || s[j] >= '0' && s[j] <= '9') {
+				j++
+			}
+			out = append(out, s[i:j])
+			i = j
+		default:
+			i++
+		}
+	}
+	return out
+}
+
+// checkClosed: every temporary (a name with a prime) used in a lifted loop is
+// a parameter or is bound inside it.
+func (c *fn) checkClosed(n ast.Node, text string, params []string) {
+	ok := map[string]bool{}
+	for _, p := range params {
+		ok[p] = true
+	}
+	toks := coqIdents(text)
+	for i, t := range toks {
+		if i > 0 && (toks[i-1] == "fun" || toks[i-1] == "let" || toks[i-1] == "Some") {
+			ok[t] = true
+		}
+	}
+	// binders of patterns: | x :: l' =>   let '(a, b) :=   (x : T)
+	for _, m := range bindRe.FindAllStringSubmatch(text, -1) {
+		for _, g := range m[1:] {
+			for _, t := range coqIdents(g) {
+				ok[t] = true
+			}
+		}
+	}
+	for _, t := range toks {
+		if strings.Contains(t, "'") && !ok[t] && !strings.Contains(t, ".") {
+			c.fail(n, "internal: the temporary %s would escape into a lifted loop", t)
+		}
+	}
 }
 
 func (c *fn) rangeStmt(s *ast.RangeStmt, k kont) string {
